@@ -340,13 +340,22 @@ def c17(tier, seed):
                      TrafficMode="short")
         r1 = replay("C17", t1, seed, 1)
         r2 = replay("C17", t2, seed, 1)
+        t3 = session("c17-extra-rs", ExtraRs=[True], FaultBudget=1, FaultKinds=["ralt", "rtrunc", "routbuf"], PubLens=[32, 65],
+                     InitPads=[False], Variants=["tr"], TrafficMode="short",
+                     PatSet=["XX", "NX", "IX", "XN", "IN", "X1X1", "XK1", "I1K1", "K1X", "NX1"])
+        r3 = replay("C17", t3, seed, 1)
     else:
         t1 = session("c17-honest", PskMode="all", InitPads=[False])
         r1 = replay("C17", t1, seed, 2, threads=14)
         t2 = session("c17-faults", FaultBudget=1, FaultKinds=kinds, PskMode="single", InitPads=[False],
                      TrafficMode="short")
         r2 = replay("C17", t2, seed, 1, threads=14)
-    return merge("model_checking", [t1, t2], [r1, r2], RULE_D1 +
+        t3 = session("c17-extra-rs", ExtraRs=[True], FaultBudget=1, FaultKinds=["ralt", "rtrunc", "routbuf", "rstale"],
+                     InitPads=[False], Variants=["tr", "sl"], TrafficMode="short", PskMode="single")
+        r3 = replay("C17", t3, seed, 1, threads=14)
+    return merge("model_checking", [t1, t2, t3], [r1, r2, r3], RULE_D1 +
+                 "also with the peer's key handed to the builder although the pattern transmits it (a rejected message must "
+                 "not replace the configured key); "
                  "here: get_remote_static() is compared with the model's term after EVERY call of every scenario on all "
                  "three state types, for 32-byte (25519) and 65-byte (P-256) keys, including after rejected reads; TLC "
                  "checks RemoteStaticCorrect on every state", ASSUME_SYMBOLIC)
@@ -384,7 +393,7 @@ def c03(tier, seed):
 
 def transport(name, timeout=3000, **over):
     c = dict(FullRollback=True, OneWayT=False, Stateful=True, NonceMode="lo", MaxSend=2, Depth=4, BadBudget=1,
-             SetBudget=1, RekeyBudget=0, SmallBufs=True, BigBudget=0, EmitEdges=True)
+             SetBudget=1, RekeyBudget=0, SmallBufs=True, BigBudget=0, PayBase=70, EmitEdges=True)
     c.update(over)
     return run_tlc("MC_Transport", c, invariants=["InvT"], name=name, timeout=timeout, view="ViewT",
                    action_constraint="EmitEdge")
@@ -439,7 +448,10 @@ def c04(tier, seed):
                 ("c04-ow", dict(OneWayT=True, MaxSend=2, Depth=3, BadBudget=2, SetBudget=0, SmallBufs=False)),
                 ("c04-sl-ring", dict(Stateful=False, MaxSend=1, Depth=2, BadBudget=0, SetBudget=0, SmallBufs=False,
                                      backends="mix-sample")),
-                ("c04-rekey", dict(MaxSend=1, Depth=4, BadBudget=0, SetBudget=0, RekeyBudget=2, SmallBufs=False))]
+                ("c04-tr-ring-long", dict(MaxSend=1, Depth=2, BadBudget=1, SetBudget=0, SmallBufs=True, PayBase=300,
+                                          backends="mix-sample")),
+                ("c04-rekey", dict(MaxSend=1, Depth=4, BadBudget=0, SetBudget=0, RekeyBudget=2, SmallBufs=False)),
+                ("c04-top", dict(NonceMode="top", MaxSend=2, Depth=4, BadBudget=0, SetBudget=1, SmallBufs=False))]
     else:
         cfgs = [("c04-tr", dict(MaxSend=2, Depth=5, BadBudget=2, SetBudget=1, SmallBufs=False)),
                 ("c04-sl", dict(Stateful=False, MaxSend=2, Depth=4, BadBudget=2, SetBudget=0, SmallBufs=False)),
@@ -448,6 +460,8 @@ def c04(tier, seed):
                 ("c04-sl-ring", dict(Stateful=False, MaxSend=2, Depth=3, BadBudget=1, SetBudget=0, SmallBufs=False,
                                      backends="mix")),
                 ("c04-tr-ring", dict(MaxSend=2, Depth=4, BadBudget=1, SetBudget=1, SmallBufs=False, backends="mix-sample")),
+                ("c04-tr-ring-long", dict(MaxSend=2, Depth=3, BadBudget=1, SetBudget=0, SmallBufs=True, PayBase=300, backends="mix")),
+                ("c04-top", dict(NonceMode="top", MaxSend=2, Depth=5, BadBudget=1, SetBudget=1, SmallBufs=False)),
                 ("c04-rekey", dict(MaxSend=2, Depth=5, BadBudget=1, SetBudget=0, RekeyBudget=2, SmallBufs=False))]
     tl, rl = tlegs("C04", seed, cfgs, per_scn=1 if tier == "quick" else 2)
     return merge("model_checking", tl, rl, RULE_T +
@@ -508,6 +522,7 @@ def c09(tier, seed):
 def c15(tier, seed):
     if tier == "quick":
         cfgs = [("c15-tr", dict(MaxSend=2, Depth=4, BadBudget=0, SetBudget=0, RekeyBudget=2, SmallBufs=False)),
+                ("c15-tr3", dict(MaxSend=1, Depth=5, BadBudget=0, SetBudget=0, RekeyBudget=3, SmallBufs=False)),
                 ("c15-sl", dict(Stateful=False, MaxSend=1, Depth=3, BadBudget=0, SetBudget=0, RekeyBudget=2, SmallBufs=False)),
                 ("c15-ow", dict(OneWayT=True, MaxSend=1, Depth=4, BadBudget=0, SetBudget=0, RekeyBudget=2, SmallBufs=False)),
                 ("c15-ow-sl", dict(OneWayT=True, Stateful=False, MaxSend=1, Depth=3, BadBudget=0, SetBudget=0, RekeyBudget=2, SmallBufs=False)),
